@@ -37,6 +37,7 @@ type c19Conn struct {
 	unusable bool
 	lastUse  time.Time
 	returned bool // was handed to Return at least once while the pool was live
+	everRet  bool // was handed to Return at all (also after shutdown)
 	inPool   bool
 }
 
@@ -107,7 +108,9 @@ func c19Scenario(p c19Params) vx.ScheduleScenario {
 					if c.key != key {
 						w.fail("wrong-key", fmt.Sprintf("conn %d of key %s handed out for %s", c.id, c.key, key))
 					}
-					if afterClose && c.returned {
+					if afterClose && (c.returned || c.everRet) {
+						// whatever was given to Return - before or after the shutdown - is a pooled
+						// connection; nothing pooled may be handed out once Close() has returned
 						w.fail("get-after-shutdown", fmt.Sprintf("pooled conn %d handed out after Close() returned", c.id))
 					}
 					c.inPool = false
@@ -120,6 +123,7 @@ func c19Scenario(p c19Params) vx.ScheduleScenario {
 						c.unusable = true
 					}
 					c.inPool = true
+					c.everRet = true
 					pl.Return(key, c)
 					// Judged by invocation/response order: only a Return that completed
 					// before Close() was even invoked is certainly a return to a live pool.
